@@ -169,5 +169,7 @@ func init() {
 		{"chromatic-index-dead-loop", "graph/colouring.go", "\tindex := 0\n\tfor j := 1; j < n; j++ {\n\t\tfor i := 0; i < j; i++ {\n\t\t\tif g.IsEdge(i, j) {\n\t\t\t\tcolouredEdges[index]", "\tindex := 0\n\tfor j := 1; j < 1; j++ {\n\t\tfor i := 0; i < j; i++ {\n\t\t\tif g.IsEdge(i, j) {\n\t\t\t\tcolouredEdges[index]", "LIVE:graph.ChromaticIndex"},
 		{"greedy-colour-table-empty", "graph/colouring.go", "\tc := make([]int, n)\n\tfor i := range c {\n\t\tc[i] = -1\n\t}\n\tseenColours", "\tc := make([]int, n-n)\n\tfor i := range c {\n\t\tc[i] = -1\n\t}\n\tseenColours", "LIVE:graph.GreedyColor"},
 		{"chromatic-index-caches-in-graph", "graph/colouring.go", "\th := LineGraphDense(g)\n\tci, colouring := ChromaticNumber(h)", "\th := LineGraphDense(g)\n\tif dg, ok := g.(*DenseGraph); ok && dg.NumberOfEdges < 0 {\n\t\tdg.NumberOfEdges = 0\n\t}\n\tci, colouring := ChromaticNumber(h)", "READONLY:graph.ChromaticIndex"},
+		{"maximal-cliques-child-by-append", "graph/clique.go", "\t\t\ttmpR := make([]int, len(R)+1)\n\t\t\ttmpP := make([]int, 0, len(P))\n\t\t\ttmpX := make([]int, 0, len(X)+1)\n\t\t\tcopy(tmpR, R)\n\t\t\ttmpR[len(tmpR)-1] = v\n", "\t\t\ttmpR := append(R, v)\n\t\t\ttmpP := make([]int, 0, len(P))\n\t\t\ttmpX := make([]int, 0, len(X)+1)\n", "EMIT:graph.AllMaximalCliques"},
+		{"maximal-cliques-patch-after-send", "graph/clique.go", "\t\t\tc <- R\n\t\t\tcontinue\n", "\t\t\tc <- R\n\t\t\tif len(R) > 0 {\n\t\t\t\tR[0] = -1\n\t\t\t}\n\t\t\tcontinue\n", "EMIT:graph.AllMaximalCliques"},
 	}
 }
